@@ -175,6 +175,9 @@ func wireClassifier(p *core.Program, withPath bool) func(fn *ssa.Function, in ss
 			if fa, ok := st.Addr.(*ssa.FieldAddr); ok && core.IsNamed(fa.X.Type(), core.PkgProto, "Buffer") {
 				if ap, ok := st.Val.(*ssa.Call); ok {
 					if bi, ok := ap.Call.Value.(*ssa.Builtin); ok && bi.Name() == "append" {
+						if isUvarintSlice(ap.Call.Args[1]) {
+							return atomDecision{kind: akAtom, label: "UV"}
+						}
 						return atomDecision{kind: akAtom, label: "RAW" + constSliceLen(ap.Call.Args[1])}
 					}
 				}
@@ -196,6 +199,9 @@ func wireClassifier(p *core.Program, withPath bool) func(fn *ssa.Function, in ss
 			switch recv.Obj().Name() {
 			case "Buffer":
 				if l, ok := bufferAtoms[name]; ok {
+					if name == "PutRaw" && isUvarintSlice(cc.Args[1]) {
+						l = "UV"
+					}
 					return atomDecision{kind: akAtom, label: l}
 				}
 				if name == "Encode" || name == "EncodeAware" {
@@ -360,4 +366,19 @@ func revisionSamples(p *core.Program, all bool) []int64 {
 	}
 	sort.Slice(out, func(i, j int) bool { return out[i] < out[j] })
 	return out
+}
+
+// isUvarintSlice: v is buf[:n] with n the result of binary.PutUvarint(buf, x):
+// a hand-rolled uvarint, same wire primitive as PutUVarInt.
+func isUvarintSlice(v ssa.Value) bool {
+	sl, ok := v.(*ssa.Slice)
+	if !ok || sl.High == nil {
+		return false
+	}
+	cl, ok := sl.High.(*ssa.Call)
+	if !ok {
+		return false
+	}
+	f := core.CalleeFunc(cl)
+	return f != nil && core.IsFunc(f, "encoding/binary", "PutUvarint")
 }
